@@ -23,13 +23,14 @@ type workerCheckpoint struct {
 func newCheckpoint(stats SamplingStats) checkpoint {
 	workers := make([]workerCheckpoint, 0, len(stats.Workers))
 	for _, w := range stats.Workers {
-		// no need to resume recent jobs after restart. On the other hand, retry jobs will resume from
-		// failed heights map. it leaves only catchup jobs to be stored and resumed
-		if w.JobType == catchupJob {
+		// retry jobs will resume from failed heights map. Catchup jobs are stored and resumed. Recent
+		// jobs have moved the catchup cursor past their heights, so the unfinished ones are stored as
+		// catchup jobs, otherwise their heights would never be sampled after restart.
+		if w.JobType == catchupJob || w.JobType == recentJob {
 			workers = append(workers, workerCheckpoint{
 				From:    w.Curr,
 				To:      w.To,
-				JobType: w.JobType,
+				JobType: catchupJob,
 			})
 		}
 	}
